@@ -1018,13 +1018,25 @@ class OnionRun(object):
         if self.outcome_of(a) == 'UPLOADED':
             self.emit(plan, 'UPLOADED', a['dir'])
         else:
-            self.emit(plan, 'FAILED', a['dir'], ' REASON=UPLOAD_REJECTED')
+            # control-spec: FAILED ... HsDir [SP DescriptorID] [SP "REASON=" Reason]; Tor reports UNEXPECTED for an upload
+            # that a directory answered with anything but 200 / 400
+            descid = hashlib.sha1(('%s-%s' % (plan.addr, a['dir'])).encode()).hexdigest()[:32]
+            extra = [' REASON=UPLOAD_REJECTED', ' REASON=UNEXPECTED', ' %s REASON=UNEXPECTED' % descid, ' %s REASON=UPLOAD_REJECTED' % descid,
+                     ''][self.ch.weighted([4, 2, 1, 1, 1], 'failreason')]
+            self.emit(plan, 'FAILED', a['dir'], extra)
 
     def emit_noise(self):
         """events the wait must ignore: CREATED for our own service, client-side fetch events of the foreign one"""
         self.noise_left -= 1
-        k = self.ch.draw(3, 'noise')
-        if k == 0 and self.own_svc is not None:
+        k = self.ch.draw(4, 'noise')
+        if k == 3:
+            # a failed descriptor *fetch* by descriptor id: HSAddress is the literal UNKNOWN; the directory may be one of ours
+            dirs = self.own_plan.dirs() if self.own_plan is not None else []
+            d = dirs[self.ch.draw(len(dirs), 'noisedir')] if dirs else HSDIRS[0]
+            if self.tor.emit('HS_DESC', 'FAILED UNKNOWN NO_AUTH %s %s REASON=NOT_FOUND' % (d, 'z' * 32)):
+                self.sim.probe('failed-event-with-unknown-address')
+            self.sim.log('hs', 'foreign', 'FAILED-UNKNOWN')
+        elif k == 0 and self.own_svc is not None:
             descid = hashlib.sha1(('created-%s' % self.own_svc.sid).encode()).hexdigest()[:32]
             if self.tor.emit('HS_DESC', 'CREATED %s UNKNOWN UNKNOWN %s' % (self.own_svc.sid, descid)):
                 self.sim.probe('created-event')
@@ -1121,17 +1133,23 @@ class C15Run(OnionRun):
         self.g_auth_discard = sim.gate('auth-service-discard-key')
         self.kind = ['eph', 'fs'][ch.weighted([3, 2], 'kind')]
         if self.kind == 'eph':
-            self.api = ['eph.create', 'tor.create_onion_service', 'auth.create'][ch.weighted([4, 3, 1], 'api')]
+            self.api = ['eph.create', 'tor.create_onion_service', 'auth.create', 'legacy.add_to_tor'][ch.weighted([8, 6, 2, 1], 'api')]
         else:
             self.api = ['fs.create', 'tor.create_filesystem_onion_service', 'fsauth.create'][ch.weighted([4, 3, 1], 'api')]
         self.auth = self.api in ('auth.create', 'fsauth.create')
         self.version = 2 if self.auth else ch.pick([3, 2], 'version')
         self.await_param = [None, True, False][ch.weighted([2, 3, 1], 'await')]
+        if self.api == 'legacy.add_to_tor':
+            # the deprecated txtorcon.torconfig.EphemeralHiddenService: v2, key from Tor, "one upload" mode only
+            self.version = 2
+            self.await_param = None
         self.await_all = bool(self.await_param)
         self.keyform = 'none'
         if self.kind == 'eph':
             self.keyform = ['none', 'supplied', 'discard', 'crlf'][ch.weighted([8, 2, 2, 1], 'key')]
             if self.keyform == 'discard' and self.auth and not self.g_auth_discard:
+                self.keyform = 'none'
+            if self.api == 'legacy.add_to_tor':
                 self.keyform = 'none'
         n_own = 1 + ch.draw(4, 'nown')
         rot = ch.draw(5, 'rot')
@@ -1315,6 +1333,14 @@ class C15Run(OnionRun):
         elif self.api == 'tor.create_onion_service':
             d = self.tor_obj.create_onion_service(ports, private_key=key, version=self.version, progress=progress,
                                                   await_all_uploads=self.await_param)
+        elif self.api == 'legacy.add_to_tor':
+            import warnings
+            from txtorcon.torconfig import EphemeralHiddenService
+            sim.probe('api-legacy-add-to-tor')
+            with warnings.catch_warnings():
+                warnings.simplefilter('ignore')
+                legacy = EphemeralHiddenService(['80 127.0.0.1:8080'])
+            d = legacy.add_to_tor(self.proto)
         elif self.api == 'auth.create':
             d = O.EphemeralAuthenticatedOnionService.create(sim.reactor, self.config, ports, private_key=key, version=2,
                                                             progress=progress, auth=O.AuthBasic(['alice', ('bob', CLIENT_BLOBS[0])]),
@@ -1502,7 +1528,7 @@ class C14Run(OnionRun):
         c = dict(idx=idx)
         c['api'] = ['eph', 'auth', 'tor'][ch.weighted([4, 3, 3], 'api')]
         c['version'] = ch.pick([2, 3], 'version')
-        c['keyform'] = ['none', 'discard', 'bare', 'prefixed', 'crlf'][ch.weighted([3, 2, 2, 2, 1], 'keyform')]
+        c['keyform'] = ['none', 'discard', 'bare', 'prefixed', 'crlf', 'prefixed-odd-case'][ch.weighted([6, 4, 4, 4, 2, 1], 'keyform')]
         c['detach'] = ch.chance(1, 3, 'detach')
         c['single_hop'] = ch.chance(1, 4, 'singlehop')
         c['clients'] = None
@@ -1521,6 +1547,7 @@ class C14Run(OnionRun):
             local = [9000 + 10 * idx + k, 65535 - k, 1 + k][ch.weighted([4, 1, 1], 'local')]
             c['ports'].append((form, virt, local))
         c['crlf'] = ch.pick(['\n', '\r\n', '\r'], 'crlf') if c['keyform'] == 'crlf' else None
+        c['crlf_pos'] = ch.pick(['middle', 'middle', 'end', 'start'], 'crlfpos') if c['keyform'] == 'crlf' else None
         c['crlf_prefixed'] = ch.chance(1, 2, 'crlfp') if c['keyform'] == 'crlf' else False
         c['n_dirs'] = 1 + ch.draw(3, 'ndirs')
         c['early'] = ch.chance(1, 3, 'early')
@@ -1573,7 +1600,17 @@ class C14Run(OnionRun):
             return blob, (prefix[:-1], blob)
         if kf == 'prefixed':
             return prefix + blob, (prefix[:-1], blob)
-        broken = blob[:24] + c['crlf'] + blob[24:]
+        if kf == 'prefixed-odd-case':
+            # Tor compares the key type without regard to case; an already prefixed key goes out as it is
+            # (txtorcon itself insists on the letters "V3" for version 3, so that part keeps its case)
+            odd = 'Ed25519-V3:' if v == 3 else (prefix.lower() if i == 0 else prefix.capitalize())
+            return odd + blob, (prefix[:-1], blob)
+        if c.get('crlf_pos') == 'end':
+            broken = blob + c['crlf']
+        elif c.get('crlf_pos') == 'start':
+            broken = c['crlf'] + blob
+        else:
+            broken = blob[:24] + c['crlf'] + blob[24:]
         return (prefix + broken) if c['crlf_prefixed'] else broken, None
 
     def ports_argument(self, c):
